@@ -11,10 +11,8 @@ CONSTANTS MaxN,      \* collections of up to MaxN chunks in the configuration pr
 \* ---------------------------------------------------------------- texts
 AdvQ == { <<>>, <<"w1">>, <<"w1", "COMMA", "QUOTE", "w2">>, <<"TAB", "w1", "CR", "LF">>, <<"LF">>,
           <<"NUL", "EMOJI">>, <<"JSONISH">>, <<"SP", "w1", "SP">> }
-AdvW == AdvQ \cup { <<"COMMA">>, <<"TAB">>, <<"QUOTE">>, <<"CR">>, <<"CR", "LF">>, <<"w1", "LF", "w2">>,
-                    <<"QUOTE", "w1", "QUOTE">>, <<"QUOTE", "COMMA", "QUOTE">>, <<"w1", "CR", "LF", "w2">>,
-                    <<"w1", "NUL">>, <<"EMOJI">>, <<"SP", "w1">>, <<"w1", "SP">>, <<"w1", "LF">>,
-                    <<"JSONISH", "COMMA", "JSONISH">> }
+AdvW == AdvQ \cup { <<"COMMA">>, <<"QUOTE">>, <<"CR">>, <<"w1", "CR", "LF", "w2">>, <<"QUOTE", "COMMA", "QUOTE">>,
+                    <<"w1", "NUL">>, <<"w1", "SP">>, <<"JSONISH", "COMMA", "TAB", "JSONISH">> }
 Adv == IF Wide THEN AdvW ELSE AdvQ
 
 Base == [id |-> <<"i1">>, text |-> <<"w1">>, title |-> <<>>, section |-> <<>>, path |-> <<>>, etypes |-> <<>>,
